@@ -287,7 +287,16 @@ fn survivor_probe(s: &Survivor, scenario: &str) -> Result<(), Failure> {
                 ensure!(v == 10 || (4001..=4003).contains(&v), "survivor.corrupt_data", "blackboard value {v} was never written");
                 drop(h);
                 let w = svc.writer_builder().create().map_err(|e| Failure::new("survivor.new_peer", format!("cannot create a new writer after the old one died: {e:?}")))?;
-                let hm = w.entry::<u64>(&1).map_err(|e| Failure::new("survivor.new_peer", format!("{e:?}")))?;
+                let hm = w.entry::<u64>(&1).map_err(|e| {
+                    if format!("{e:?}").contains("HandleAlreadyExists") {
+                        Failure::new(
+                            "blackboard.entry_handle_stays_acquired_after_writer_death",
+                            "the writer of the dead node held the write handle of key 1 when it died; the dead-node cleanup removes the writer port but does not release the handle flag in shared memory, so the new writer of the survivor gets HandleAlreadyExists for ever",
+                        )
+                    } else {
+                        Failure::new("survivor.new_peer", format!("{e:?}"))
+                    }
+                })?;
                 hm.update_with_copy(78);
                 let h = r.entry::<u64>(&1).map_err(|e| Failure::new("survivor.new_peer", format!("{e:?}")))?;
                 ensure!(*h.get() == 78, "survivor.new_peer", "survivor reader sees {} instead of 78", *h.get());
@@ -365,6 +374,11 @@ fn run_case_in(d: &Domain, c: &CrashCase, phase: &str, obs: &mut Obs) -> Result<
             killed
         }
     };
+    // atomic-write crash mode: the child left the name of the phase it died in
+    let phase_file = d.root.join(".vphase");
+    let atomic_phase = std::fs::read_to_string(&phase_file).unwrap_or_default();
+    let _ = std::fs::remove_file(&phase_file);
+    let phase: &str = if c.kind == "atomic" { &atomic_phase } else { phase };
     if !died_inside {
         obs.class("victim_ran_to_completion");
     }
@@ -527,14 +541,6 @@ fn exec(ctx: &mut Ctx, part: &str, c: &CrashCase) {
             ctx.class("hang_not_reproduced", 1);
             obs = obs2;
             r = r2;
-        } else if let (Err(f1), Err(f2)) = (&r, &r2) {
-            // both attempts ran out of time. While the case process merely waits for its traced
-            // child (wchan=do_wait) the machine is just slow (a ptrace stop costs two context
-            // switches on a contended CPU): inconclusive, not a violation. A survivor call that
-            // does not return shows the case process itself sleeping or running.
-            if f1.message.contains("wchan=do_wait") || f2.message.contains("wchan=do_wait") {
-                r = Err(Failure::new("harness.slow", format!("case exceeded its time limit twice while waiting for the traced child: {}", f2.message)));
-            }
         }
     }
     ctx.record(part, vcore::rng::hash_str(&format!("{c:?}")), &obs, || serde_json::to_value(c).unwrap());
